@@ -26,7 +26,7 @@ TRUSTED = ['pandas merge / set_index / drop / reset_index: modelled by their con
            '(harness/common.py export_fixarr, harness/c02_util.py export_shape)',
            'the R-tree answers as a set (Model/Sjoin.v cand_scan; C03 proves it of the tree)']
 
-IMPORTS = 'Model.Num Model.Arrow Model.Bounds Model.PointKernels Model.PointShape Model.Sjoin'
+IMPORTS = 'Model.Num Model.Arrow Model.Bounds Model.PointKernels Model.PointShape Model.Sjoin Model.SjoinWf'
 CASE_TY = 'how * string * string * fmeta * fmeta * fixarr * list (option shape)'
 RES_TY = 'option (nat + (list orow * list string * list (option string) * string * list bbox))'
 FN = 'sjoin_case'
@@ -356,6 +356,28 @@ def case_term(fr, how, ls, rs):
     return (Raw(U.HOWS[how]), ls, rs, fr.lmeta, fr.rmeta, fr.lrec, fr.rshapes)
 
 
+def check_guards(rep, frames):
+    """the guards of the theorems (Model/SjoinWf.v), evaluated by the kernel on every real right
+    geometry: well-formed scalar buffers always; rings closed exactly when the generator closed them"""
+    if not frames:
+        return
+    cases = [fr.rshapes for fr in frames]
+    ress = [[(True, True) if sh is None else
+             (True, fr.closed or U.rings_closed(fr.rspec['kind'], [el]))
+             for sh, el in zip(fr.rshapes, fr.rspec['elems'])] for fr in frames]
+    bad = C.coq_mismatches(IMPORTS, 'shapes_wf_case', 'list (option shape)', 'list (bool * bool)',
+                           cases, ress, shard=400)
+    for i in bad[:5]:
+        fr = frames[i]
+        model = C.coq_eval(IMPORTS, f'shapes_wf_case {C.coq(cases[i])}')
+        rep.violation(f'guards:{fr.rspec["kind"]}',
+                      'a real right geometry does not satisfy the well-formedness / closed-ring guard '
+                      'of the theorems as expected',
+                      {'right': fr.rspec, 'guards_only': True, 'expected': ress[i], 'model': model})
+    rep.extra['guard_checks'] = rep.extra.get('guard_checks', 0) + len(frames)
+    frames.clear()
+
+
 def flush(rep, batch):
     if not batch:
         return
@@ -427,7 +449,7 @@ def gen_cases(rep, tier):
             k += 1
             yield (*make_specs(meta, le, 'float64', kind, ri, 'float64'), HOW3, meta)
     # (D) seeded random structured stream
-    nrand = 330 if quick else 9000
+    nrand = 330 if quick else 6000
     for _ in range(nrand):
         kind = rng.choice(KINDS)
         le = rand_points(rng, rng.choice([0, 1, 2, 3, 5, 8]), missing_p=rng.choice([0, 0.15, 0.4]))
@@ -487,19 +509,21 @@ def run(rep):
                 'sjoin returned a frame or a modelled error; distinct = distinct (how, suffixes, exported '
                 'buffers, metadata)')
     validation_checks(rep)
-    batch = []
-    cache_key, fr = None, None
+    batch, frames = [], []
     for lspec, rspec, ls, rs, hows, meta in gen_cases(rep, tier):
         try:
             fr = Frames(lspec, rspec)
         except Exception as e:  # noqa: BLE001
             rep.count('construct_error:' + type(e).__name__)
             continue
+        frames.append(fr)
         for how in hows:
             run_call(rep, fr, how, ls, rs, batch, meta)
         if len(batch) >= 1200:
             flush(rep, batch)
+            check_guards(rep, frames)
     flush(rep, batch)
+    check_guards(rep, frames)
 
 
 def replay(rep, rp):
@@ -507,6 +531,12 @@ def replay(rep, rp):
     numba.set_num_threads(1)
     if rp.get('validation'):
         validation_checks(rep)
+        return not rep.violations
+    if rp.get('guards_only'):
+        lspec, _, _, _ = make_specs(META[0], [[1, 1]], 'float64', 'polygon', [], 'float64')
+        check_guards(rep, [Frames(lspec, rp['right'])])
+        for v in rep.violations:
+            print(v['what'], v['replay'].get('expected'), v['replay'].get('model'))
         return not rep.violations
     fr = Frames(rp['left'], rp['right'])
     batch = []
